@@ -204,7 +204,8 @@ DEFAULT = _Default()
 # ---------------------------------------------------------------------------------------------
 
 def enc_method(d, tie=0):
-    return [d["id"], list(d["pos"]), [[k, t] for (k, t, _) in d.get("kw", [])], d["npos_req"],
+    from .model import canon_ty
+    return [d["id"], [canon_ty(t) for t in d["pos"]], [[k, canon_ty(t)] for (k, t, _) in d.get("kw", [])], d["npos_req"],
             [k for (k, _, req) in d.get("kw", []) if req], d.get("prio", 0), tie]
 
 
